@@ -125,7 +125,7 @@ def arm_field_bindings(alt):
     return out, rest
 
 
-def origins(arm_body, seeds, extra_roots=()):
+def origins(arm_body, seeds, extra_roots=(), skip=()):
     """Def-use closure inside one arm: map variable -> set of seed names it derives from.
     seeds: iterable of names (child bindings).  Handles let, closure parameters (continuation style and iterator
     adaptors), for loops, if-let / match bindings."""
@@ -144,6 +144,8 @@ def origins(arm_body, seeds, extra_roots=()):
         rounds += 1
         for n in S.walk(arm_body):
             k = n["k"]
+            if any(n is x for x in skip):
+                continue
             binds = []
             src = set()
             if k == "Local" and n.get("init") is not None:
